@@ -382,6 +382,34 @@ def run(repo: Repo) -> Result:
         for k, frag in need.items():
             if frag not in src:
                 res.add("C19-VISIT", fq, k, f"{fq}: the visit no longer contains `{frag}` — {k} of visited nodes are not collected", f.file, f.line)
+        # evaluate-before-bind: a node's own expressions are analysed against the scope as it was
+        # *before* the node's template-scope names are added (render evaluates `x | plus: 1` before
+        # `assign x = ...` binds x), and children are visited after the block scope is pushed.
+        visit = next((n for n in ast.walk(f.node) if isinstance(n, (ast.FunctionDef, ast.AsyncFunctionDef)) and n.name == "_visit"), None)
+        res.ob(f"visit-order:{fq}", 2)
+        if visit is None:
+            res.add("C19-VISIT", fq, "no-visit", f"{fq}: nested _visit not found", f.file, f.line)
+        else:
+            def pos_of(pred):
+                for i, st in enumerate(visit.body):
+                    if any(pred(x) for x in [st] + list(ast.walk(st))):
+                        return i
+                return None
+
+            def loop_over(method):
+                return lambda x: isinstance(x, (ast.For, ast.AsyncFor)) and isinstance(x.iter, ast.Call) and callee_name(x.iter) == method and is_name_(x.iter.func.value, "node")
+
+            p_expr = pos_of(loop_over("expressions"))
+            p_bind = pos_of(lambda x: isinstance(x, ast.Call) and callee_name(x) == "add" and is_name_(x.func.value, "scope"))
+            if p_expr is None or p_bind is None or not p_expr < p_bind:
+                res.add(
+                    "C19-VISIT",
+                    fq,
+                    "bind-before-evaluate",
+                    f"{fq}: the names of node.template_scope() are added to the scope before (or without) the node's expressions being analysed: `{{% assign total = total | plus: 1 %}}` reads the global `total` at render time, but the analysis would treat it as already local",
+                    f.file,
+                    visit.lineno,
+                )
     av = repo.func("liquid.static_analysis._analyze_variables")
     res.ob(av.qual, 2)
     s = text(av.node)
